@@ -900,6 +900,16 @@ class Oracle(object):
             if expect is not None and abs(d - expect) > EPS:
                 self.viol('C06', 'runtime', '%s on %s: finish-start=%s, expected %s (work/speed=%s)' % (
                     e['tid'], e['machine'], d, expect, n_), site='n=0' if n_ == 0 else 'n>0')
+            elif expect is not None and self.res.tasks is not None and e['tid'] in self.res.tasks.index:
+                # ... and as recorded in the task table the run returned
+                row = self.res.tasks.loc[e['tid']]
+                try:
+                    dt = float(row['aft']) - float(row['ast'])
+                    if abs(dt - expect) > EPS:
+                        self.viol('C06', 'runtime_in_task_table', '%s: the returned table records %s..%s (%s), expected %s' % (
+                            e['tid'], row['ast'], row['aft'], dt, expect))
+                except Exception:
+                    pass
             # held for the whole runtime
             h = e['holder']
             if h is not None and h['exit'] is not None and h['exit'][0] < t.aft - 1 - EPS:
